@@ -70,6 +70,15 @@ for sid in ids:
     finally:
         shutil.rmtree(d, ignore_errors=True)
 if "--record" in flags:
-    with open(os.path.join(root, "RESULTS.json"), "w") as f:
-        json.dump({"tier": tier, "scale": scale, "results": record}, f, indent=1, sort_keys=True)
+    rpath = os.path.join(root, "RESULTS.json")
+    merged = {}
+    if os.path.exists(rpath) and any(not a.startswith("--") and a.upper().startswith("C") and "_" in a for a in sys.argv[1:]):
+        # only some changes were run: keep the recorded results of the others
+        try:
+            merged = json.load(open(rpath)).get("results", {})
+        except Exception:
+            merged = {}
+    merged.update(record)
+    with open(rpath, "w") as f:
+        json.dump({"tier": tier, "scale": scale, "results": merged}, f, indent=1, sort_keys=True)
 sys.exit(1 if bad else 0)
